@@ -268,10 +268,17 @@ func rulePartsLoop(r *Run, fn *ssa.Function) int {
 		}
 		for _, want := range []string{"(*archive/zip.Writer).Create", "Write"} {
 			cut := map[*ssa.BasicBlock]bool{}
+			matches := func(cn string) bool {
+				return cn == want || (want == "Write" && (strings.HasSuffix(cn, ".Write") || strings.HasSuffix(cn, ").Write")))
+			}
 			allInstrs(fn, func(in2 ssa.Instruction) {
 				if c, ok := in2.(*ssa.Call); ok {
 					cn := calleeName(c)
-					if cn == want || (want == "Write" && (strings.HasSuffix(cn, ".Write") || strings.HasSuffix(cn, ").Write"))) {
+					if matches(cn) {
+						cut[c.Block()] = true
+					}
+					// a helper that performs the step on every path on which it succeeds
+					if cal := staticCallee(c); cal != nil && p.inModule(cal) && alwaysCallsOnSuccess(p, cal, matches, 0) {
 						cut[c.Block()] = true
 					}
 				}
@@ -447,15 +454,51 @@ func ruleSaveVerbatim(r *Run) {
 				if fv, _ := fieldOfAddr(ld.X); !fieldIs(p, fv, pkgDoc, "Document", "parts") {
 					continue
 				}
+				// the write may sit in a helper called from the loop: writeZipEntry(zw, name, data)
+				type wsite struct {
+					c   ssa.CallInstruction
+					arg ssa.Value
+					in  *ssa.Function
+				}
+				var sites []wsite
 				for b := range l.Body {
 					for _, in := range b.Instrs {
 						c, ok := in.(ssa.CallInstruction)
-						if !ok || !c.Common().IsInvoke() || c.Common().Method.Name() != "Write" || len(c.Common().Args) != 1 {
+						if !ok {
 							continue
 						}
+						if c.Common().IsInvoke() && c.Common().Method.Name() == "Write" && len(c.Common().Args) == 1 {
+							sites = append(sites, wsite{c, c.Common().Args[0], fn})
+							continue
+						}
+						cal := staticCallee(c)
+						if cal == nil || !p.inModule(cal) {
+							continue
+						}
+						allInstrs(cal, func(in2 ssa.Instruction) {
+							c2, ok := in2.(ssa.CallInstruction)
+							if !ok || !c2.Common().IsInvoke() || c2.Common().Method.Name() != "Write" || len(c2.Common().Args) != 1 {
+								return
+							}
+							// map the helper's parameter back to the caller's argument
+							a := c2.Common().Args[0]
+							if par, ok := a.(*ssa.Parameter); ok {
+								if pi := paramIndex(cal, par); pi >= 0 && pi < len(c.Common().Args) {
+									a = c.Common().Args[pi]
+								}
+							}
+							sites = append(sites, wsite{c2, a, cal})
+						})
+					}
+				}
+				for _, ws := range sites {
+					{
+						c := ws.c
+						in := ssa.Instruction(c)
+						_ = in
 						found = true
 						n++
-						arg := c.Common().Args[0]
+						arg := ws.arg
 						verb := false
 						for _, e := range ri.Elem {
 							if ex, ok := e.(*ssa.Extract); ok && ex.Index == 2 && arg == ssa.Value(ex) {
@@ -664,4 +707,44 @@ func partStoresCached(p *Program) []partStore {
 	v := collectPartStores(p)
 	partStoreCache[p] = v
 	return v
+}
+
+// alwaysCallsOnSuccess: every path of fn from entry to a return that may report success passes
+// through a call whose callee name satisfies pred (directly or in a helper with the same property).
+func alwaysCallsOnSuccess(p *Program, fn *ssa.Function, pred func(string) bool, depth int) bool {
+	if depth > 2 || len(fn.Blocks) == 0 {
+		return false
+	}
+	cut := map[*ssa.BasicBlock]bool{}
+	allInstrs(fn, func(in ssa.Instruction) {
+		c, ok := in.(ssa.CallInstruction)
+		if !ok {
+			return
+		}
+		if _, isDefer := in.(*ssa.Defer); isDefer {
+			return
+		}
+		if pred(calleeName(c)) {
+			cut[c.Block()] = true
+			return
+		}
+		if cal := staticCallee(c); cal != nil && cal != fn && p.inModule(cal) && alwaysCallsOnSuccess(p, cal, pred, depth+1) {
+			cut[c.Block()] = true
+		}
+	})
+	if len(cut) == 0 {
+		return false
+	}
+	reach := reachableBlocks(fn.Blocks[0], cut)
+	ei := errorResultIndex(fn.Signature)
+	for _, ret := range returnsOf(fn) {
+		if !reach[ret.Block()] {
+			continue
+		}
+		// reached without the step: acceptable only if this return cannot report success
+		if ei < 0 || mayReportSuccess(p, fn, ret, ei) {
+			return false
+		}
+	}
+	return true
 }
